@@ -9,17 +9,22 @@ mod engine;
 mod util;
 
 mod api;
+mod c01;
 mod c02;
 mod c03;
 mod c04;
 mod c05;
 mod c06;
 mod c07;
+mod c08;
 mod c09;
 mod c11;
 mod c12;
 mod c13;
 mod c14;
+mod c15;
+mod c16;
+mod child;
 mod gen;
 mod pq;
 
@@ -35,6 +40,9 @@ fn main() {
     let args: Vec<String> = std::env::args().collect();
     if args.len() < 3 {
         usage();
+    }
+    if args[1] == "child" {
+        std::process::exit(child::main(&args[2..]));
     }
     if args[1] == "hunt-c05" {
         // fvh hunt-c05 <n> <first> <count>
@@ -59,13 +67,17 @@ fn main() {
     let prop: &'static str = Box::leak(args[1].clone().into_boxed_str());
     let env = Env { prop, tier, seed, workers, known: engine::load_known(&verif_dir), verif_dir, strict_replay: replay.is_some() };
     let code = match prop {
+        "C01" => c01::run(&env, replay.as_deref()),
         "C02" => c02::run(&env, replay.as_deref()),
         "C03" => c03::run(&env, replay.as_deref()),
         "C04" => c04::run(&env, replay.as_deref()),
         "C05" => c05::run(&env, replay.as_deref()),
         "C06" => c06::run(&env, replay.as_deref()),
         "C07" => c07::run(&env, replay.as_deref()),
+        "C15" => c15::run(&env, replay.as_deref()),
         "C14" => c14::run(&env, replay.as_deref()),
+        "C08" => c08::run(&env, replay.as_deref()),
+        "C16" => c16::run(&env, replay.as_deref()),
         "C09" => c09::run(&env, replay.as_deref()),
         "C11" => c11::run(&env, replay.as_deref()),
         "C13" => c13::run(&env, replay.as_deref()),
